@@ -718,10 +718,11 @@ class Mesh:
             raise TypeError("Can only join meshes with same type.")
         p = np.hstack((self.p, other.p))
         t = np.hstack((self.t, other.t + self.p.shape[1]))
-        # vertices agreeing to 8 digits of the size of the mesh are merged;
-        # the joined mesh keeps the coordinates as they are
-        scale = np.abs(p).max() or 1.
-        key = (p / scale).round(decimals=8)
+        # vertices agreeing to 8 digits of the extent of the joined meshes are
+        # merged; the joined mesh keeps the coordinates as they are
+        origin = p.min(axis=1, keepdims=True)
+        scale = (p - origin).max() or 1.
+        key = ((p - origin) / scale).round(decimals=8)
         return cls(*self._remove_duplicate_nodes(p, t, key=key))
 
     def __repr__(self):
